@@ -204,13 +204,37 @@ class Simplifier(pysmt.walkers.DagWalker):
         sr = args[1]
 
         if sl.is_constant() and sr.is_constant():
-            l = sl.constant_value()
-            r = sr.constant_value()
-            return self.manager.Bool(l == r)
-        elif sl == sr:
+            res = self._constants_equal(sl, sr)
+            if res is not None:
+                return self.manager.Bool(res)
+        if sl == sr:
             return self.manager.TRUE()
         else:
             return self.manager.Equals(sl, sr)
+
+    def _constants_equal(self, l: FNode, r: FNode) -> Optional[bool]:
+        """Value equality of two constants of the same type.
+
+        Array values are compared extensionally (None if undecided).
+        """
+        if not l.is_array_value():
+            return l.constant_value() == r.constant_value()
+        idx_type = l.array_value_index_type()
+        if idx_type.is_array_type():
+            return None
+        keys = set(l.array_value_assigned_values_map())
+        keys.update(r.array_value_assigned_values_map())
+        for k in keys:
+            res = self._constants_equal(l.array_value_get(k),
+                                        r.array_value_get(k))
+            if not res:
+                return res
+        if idx_type.is_bool_type() and len(keys) >= 2:
+            return True
+        if idx_type.is_bv_type() and len(keys) >= 2**idx_type.width:
+            return True
+        return self._constants_equal(l.array_value_default(),
+                                     r.array_value_default())
 
     def walk_ite(self, formula: FNode, args: List[FNode], **kwargs) -> FNode:
         assert len(args) == 3
